@@ -14,6 +14,16 @@ CLAIMED = {
    note="dict level is symbolic; the file layer (PyYAML/joblib float round trip) is checked on one concrete sample per class; HDF5 ElectronAnalyzer dumps and NNEvaluator are outside; CrossHair string lengths <= 8, per-condition timeout 30 s (quick) / 120 s (thorough), 'Not confirmed' counted inconclusive.",
    technique="symbolic execution (exact reals) of serialisers + z3 term equality; CrossHair/z3 on the dispatch code with symbolic strings; concrete file round trip as translation validation",
    design="4/C14"),
+ "C13": dict(
+   text="The settings/plan/normaliser code is executed at a symbolic uniform density (rho = 2u^6) with symbolic exponent parameters; z3 decides that every entry of the reported UEG vector equals the feature actually computed there (semilocal modes) and the documented closed-form kernel integral (all version-i l=0 specs, j, k; GGA/MGGA; rho_mult one/expnt; fractional Laplacian), that normalisers' reported UEG factors equal their forward map at the UEG point, and that every accepted settings combination produces a vector.",
+   note="Gaussian-moment lemma trusted; documented kernels transcribed from docs/features/nldf.rst; SDMX constants (hard-coded numerical integrals) only checked for table consistency and density power; u in [1/8, 8]; se_erf_rinv has no documented closed form.",
+   technique="symbolic execution (exact reals) + canonical polynomial normal form + z3; replay by direct evaluation on the unmodified modules",
+   design="4/C13"),
+ "C03": dict(
+   text="With a symbolic scaling factor lam, z3 decides on the real code that the length-scale exponents (and their derivatives) scale as lam^2 (lam^-1, lam^-6, lam^-3), that the semilocal features have exactly the powers SemilocalSettings declares, that every normaliser class maps power u to u+get_usp(), that the inhomogeneity variable is scale invariant in all four modes, that for 13 settings configurations the recommended normalisers make every non-local feature scale invariant when the raw features scale with the declared powers, that the declared spec powers equal the homogeneity of the documented kernels, and that the exchange baselines scale as lam^4.",
+   note="Python layer only: that the C pipeline's raw features have the declared power needs a scaled molecule end to end and is outside; densities above the cutoffs on both sides of the scaling; tau >= tau_W; one sample point.",
+   technique="symbolic execution (exact reals, symbolic exponents via exp/log atoms) + canonical polynomial normal form + z3",
+   design="4/C03"),
 }
 
 NOT_YET = {}
